@@ -59,7 +59,9 @@ def r1_if(ctx: Ctx) -> None:
             return False
         return any(t_ in (V, f"{V} != 0", f"{V} is True") and pol == want for t_, pol in conds) or any(t_ in (f"{V} == 0",) and pol != want for t_, pol in conds)
     ctx.check(truth(then_c, True), "generate_if:then-arm", f"the first block is expanded exactly when the condition is non-zero; conditions: {sorted(then_c) if then_c is not None else None}")
-    ctx.check(truth(else_c, False) and else_c is not None and ("node.else_block", True) in else_c, "generate_if:else-arm",
+    from ..facts import has_cond as _hc10
+
+    ctx.check(truth(else_c, False) and else_c is not None and _hc10(else_c, "node.else_block", True), "generate_if:else-arm",
               f"otherwise the else block is expanded when there is one, else nothing; conditions: {sorted(else_c) if else_c is not None else None}")
     ctx.count("if_facts", 6)
 
